@@ -274,3 +274,49 @@ func TestRandomInstances(t *testing.T) {
 		runAndCheck(rt, top, h, schedule{stream, hx.Split(stream, cuts)}, end, "random")
 	})
 }
+
+// ---- replay tier: minimised histories of seeded changes that were once missed, as plain deterministic cases ----
+
+func TestReplay(t *testing.T) {
+	term := []HS{{Kind: HTerm}}
+	cases := []struct {
+		name string
+		top  []RS
+		segs []string
+		end  hx.EndMode
+	}{
+		{"stale not-matched verdict after a non-terminal route changed the stream",
+			[]RS{{Sets: []MSet{{Ms: []MS{need(2, 1, 'b', false)}}, {Ms: []MS{need(1, 0, 'b', false)}}}, Chain: []HS{{Kind: HTake, K: 1}}},
+				{Sets: []MSet{{Ms: []MS{need(1, 0, 'a', false)}}}, Chain: term},
+				{Sets: []MSet{{Ms: []MS{need(2, 1, 'a', false)}}}, Chain: term}},
+			[]string{"b", "a"}, hx.EndEOF},
+		{"an undecided OR'ed set must not be overwritten by a later set that rejects",
+			[]RS{{Sets: []MSet{{Ms: []MS{need(4, 3, 'a', false)}}, {Ms: []MS{need(1, 0, 'z', false)}}}, Chain: term}},
+			[]string{"aa", "aa"}, hx.EndEOF},
+		{"a terminal route after a non-terminal one ends routing",
+			[]RS{{Sets: []MSet{{Ms: []MS{need(1, 0, 'p', false)}}}, Chain: []HS{{Kind: HTake, K: 1}}},
+				{Sets: []MSet{{Ms: []MS{need(1, 0, 'q', false)}}}, Chain: term},
+				{Chain: []HS{{Kind: HTake, K: 0}}}},
+			[]string{"pq", "rest"}, hx.EndEOF},
+		{"nested list falls through to the handler after the subroute, then to the following routes",
+			[]RS{{Chain: []HS{{Kind: HSub, Sub: []RS{{Sets: []MSet{{Ms: []MS{need(2, 1, 'x', false)}}}, Chain: term}}}, {Kind: HTake, K: 1}}},
+				{Sets: []MSet{{Ms: []MS{need(1, 0, 'b', false)}, Not: true}}, Chain: term}},
+			[]string{"a", "b", "c"}, hx.EndSilentVirtual},
+	}
+	for _, c := range cases {
+		rl, err := rx.Routes(rx.BareCtx(), ToRoutes(c.top, ""))
+		if err != nil {
+			t.Fatalf("%s: %v", c.name, err)
+		}
+		var segs [][]byte
+		var stream []byte
+		for _, s := range c.segs {
+			segs = append(segs, []byte(s))
+			stream = append(stream, s...)
+		}
+		if !runAndCheck(t, c.top, rx.Compile(rl, time.Second, true), schedule{stream, segs}, c.end, "replay") {
+			t.Logf("replay case failed: %s", c.name)
+		}
+	}
+	hx.Class("C02/replay-cases", int64(len(cases)))
+}
